@@ -39,7 +39,7 @@ def run(ctx):
     for t in texts:
         try: n_units = len(t.encode('utf-8'))
         except UnicodeEncodeError: n_units = len(t)
-        payload.append([t, schedules(rng, max(2, min(n_units, len(t))))[:ctx.n(70, 140)]])
+        payload.append([t, schedules(rng, max(2, min(n_units, len(t))))[:(ctx.n(70, 140) if len(t) <= 600 else ctx.n(20, 60))]])
     corr.direct(ctx, 'c07t', payload, describe=lambda p: dict(text=p[0], n_schedules=len(p[1])), label='forms')
     # byte level: invalid encodings, reader errors at the right offset regardless of chunking
     bp = []
@@ -57,7 +57,7 @@ def run(ctx):
             if op < 0.5: b[i] = rng.choice([0xff, 0x80, 0xc0, 0xe2, 0xed, 0xf0, 0xd8, 0xdc, 0xa0])
             elif op < 0.8: del b[i]
             else: b.insert(i, rng.choice([0xff, 0x80, 0xe2, 0xf0, 0xd8]))
-        bp.append([list(b), schedules(rng, max(2, len(b)))[:ctx.n(70, 140)]])
+        bp.append([list(b), schedules(rng, max(2, len(b)))[:(ctx.n(70, 140) if len(b) <= 600 else ctx.n(20, 60))]])
     corr.direct(ctx, 'c07b', bp, describe=lambda p: dict(form='bytes', payload=p[0], n_schedules=len(p[1])), label='bytes')
     ctx.partial = [dict(theorem='utf16_incremental / encoding_detection_schedule_free / reader_delivery_independent', missing='not proved; decided by the reader correspondence and the direct all-splits run')]
     ctx.refuted = [dict(theorem='delivery_same_error (FULL)', witness='a: b: c\\n + 5000 x + \\x01 : str reports the ReaderError, a 1-char stream the ScannerError (known finding F-two-errors-delivery)')]
